@@ -13,6 +13,9 @@ import (
 // ---- scenario generator ------------------------------------------------------------------
 
 type jGen struct {
+	BadIDs         bool
+	EmptyTopics    bool
+	ShutdownPairs  bool
 	ClientFaults   bool
 	Cancels        bool
 	CancelOnFail   bool
@@ -54,6 +57,11 @@ func genJoe(rng *rand.Rand, g jGen) *jScenario {
 		for i := 0; i < h; i++ {
 			sc.Prefix = append(sc.Prefix, jMsg{Token: next(), Topics: pickTopics(rng, 2)})
 		}
+		if g.BadIDs && h > 1 && rng.IntN(3) == 0 {
+			// a rejected publish in the middle of the prefix (it must not consume an automatic ID)
+			k := 1 + rng.IntN(h-1)
+			sc.Prefix = append(sc.Prefix[:k], append([]jMsg{{Token: next(), Topics: pickTopics(rng, 2), BadID: true}}, sc.Prefix[k:]...)...)
+		}
 		if len(sc.Replayer) > 6 && sc.Replayer[:6] == "valid:" && rng.IntN(2) == 0 {
 			// a short TTL and gaps between the prefix publishes: older events expire, Put-triggered
 			// collections run, the ring grows, wraps and shrinks
@@ -77,6 +85,9 @@ func genJoe(rng *rand.Rand, g jGen) *jScenario {
 	nsubs := 1 + rng.IntN(g.MaxSubs)
 	for i := 0; i < nsubs; i++ {
 		s := jSub{Name: "s" + strconv.Itoa(i), Topics: pickTopics(rng, 3), StartAt: int64(rng.IntN(60)), CancelAt: -1}
+		if g.EmptyTopics && rng.IntN(12) == 0 {
+			s.Topics = nil // matches nothing
+		}
 		if g.LateSubscribe && rng.IntN(3) == 0 {
 			s.StartAt = int64(rng.IntN(600))
 		}
@@ -97,12 +108,18 @@ func genJoe(rng *rand.Rand, g jGen) *jScenario {
 			}
 		}
 		if g.Resume && len(sc.Prefix) > 0 && rng.IntN(5) > 0 {
-			h := len(sc.Prefix)
+			var valid []jMsg
+			for _, pm := range sc.Prefix {
+				if !pm.BadID {
+					valid = append(valid, pm)
+				}
+			}
+			h := len(valid)
 			idOf := func(i int) string {
 				if sc.autoIDs() {
 					return strconv.Itoa(i)
 				}
-				return "id-" + sc.Prefix[i].Token
+				return "id-" + valid[i].Token
 			}
 			lo := 0
 			if capN > 0 && h > capN {
@@ -119,7 +136,7 @@ func genJoe(rng *rand.Rand, g jGen) *jScenario {
 				s.LastID, s.LastIDSet, s.LastIDClass = idOf(rng.IntN(lo)), true, "evicted"
 			case c < 9:
 				if sc.autoIDs() {
-					s.LastID = strconv.Itoa(h + 100 + rng.IntN(5))
+					s.LastID = []string{strconv.Itoa(h + 100 + rng.IntN(5)), "-1", "+1", "-0", "18446744073709551615", "9223372036854775808", "abc", "1.0"}[rng.IntN(8)]
 				} else {
 					s.LastID = "never-" + strconv.Itoa(rng.IntN(5))
 				}
@@ -138,12 +155,19 @@ func genJoe(rng *rand.Rand, g jGen) *jScenario {
 		}
 		nm := 1 + rng.IntN(g.MaxMsgs)
 		for k := 0; k < nm; k++ {
-			p.Msgs = append(p.Msgs, jMsg{Token: next(), Topics: pickTopics(rng, 3)})
+			m := jMsg{Token: next(), Topics: pickTopics(rng, 3)}
+			if g.BadIDs && sc.Replayer != "none" && sc.Replayer != "rec" && rng.IntN(8) == 0 {
+				m.BadID = true
+			}
+			p.Msgs = append(p.Msgs, m)
 		}
 		sc.Pubs = append(sc.Pubs, p)
 	}
 	if g.MidShutdown && rng.IntN(3) == 0 {
 		sc.Shutdowns = append(sc.Shutdowns, jShutdown{At: int64(rng.IntN(700)), Ctx: "bg"})
+		if g.ShutdownPairs && rng.IntN(2) == 0 {
+			sc.Shutdowns = append(sc.Shutdowns, jShutdown{At: sc.Shutdowns[0].At, Ctx: "bg"}, jShutdown{At: sc.Shutdowns[0].At, Ctx: "cancelled"})
+		}
 	}
 	if g.ReplayerFaults && sc.Replayer != "none" && rng.IntN(2) == 0 {
 		kind := "err"
@@ -327,7 +351,7 @@ func jLoop(t *testing.T, r *fw.Run, phase string, n int, g jGen, nRandom, nNth i
 func TestC03(t *testing.T) {
 	r := fw.Start(t, "C03")
 	defer r.Finish()
-	g := jGen{Cancels: true, ClientFaults: true, MidShutdown: true, Replayers: []string{"rec", "rec", "finite:4:auto", "valid:manual", "none"}, MaxSubs: 5, MaxPubs: 4, MaxMsgs: 6, Latency: true, LateSubscribe: true}
+	g := jGen{Cancels: true, ClientFaults: true, MidShutdown: true, EmptyTopics: true, BadIDs: true, Replayers: []string{"rec", "rec", "finite:4:auto", "valid:manual", "none"}, MaxSubs: 5, MaxPubs: 4, MaxMsgs: 6, Latency: true, LateSubscribe: true}
 	jLoop(t, r, "S", r.N(4000, 60000), g, 4, 5, jTargeted, func(sc *jScenario, tr *jTrace) []jv {
 		out := oracleDelivery(sc, tr, false)
 		out = append(out, oracleFlush(tr)...)
@@ -341,7 +365,7 @@ func TestC03(t *testing.T) {
 func TestC04(t *testing.T) {
 	r := fw.Start(t, "C04")
 	defer r.Finish()
-	g := jGen{Resume: true, Replayers: []string{"finite:2:auto", "finite:2:manual", "finite:3:auto", "finite:3:manual", "finite:4:manual", "finite:7:auto", "valid:auto", "valid:manual"}, MaxSubs: 3, MaxPubs: 3, MaxMsgs: 5, Latency: true}
+	g := jGen{Resume: true, BadIDs: true, Replayers: []string{"finite:2:auto", "finite:2:manual", "finite:3:auto", "finite:3:manual", "finite:4:manual", "finite:7:auto", "valid:auto", "valid:manual"}, MaxSubs: 3, MaxPubs: 3, MaxMsgs: 5, Latency: true}
 	jLoop(t, r, "S", r.N(4000, 60000), g, 3, 4, []map[string]int64{{"loop.replayed": 120}, {"loop.sub": 60, "loop.msg": 30}, {"loop.put": 70}, {"sub.accepted": 80, "pub.accepted": 40}}, func(sc *jScenario, tr *jTrace) []jv {
 		return oracleDelivery(sc, tr, true)
 	})
@@ -352,7 +376,7 @@ func TestC04(t *testing.T) {
 func TestC06(t *testing.T) {
 	r := fw.Start(t, "C06")
 	defer r.Finish()
-	g := jGen{ClientFaults: true, Cancels: true, CancelOnFail: true, ReplayerFaults: true, MidShutdown: true, Resume: true, Replayers: []string{"rec", "rec", "finite:3:manual", "finite:4:auto", "valid:manual", "valid:auto", "none"}, MaxSubs: 4, MaxPubs: 3, MaxMsgs: 5, Latency: true, LateSubscribe: true}
+	g := jGen{ClientFaults: true, Cancels: true, CancelOnFail: true, ReplayerFaults: true, MidShutdown: true, ShutdownPairs: true, Resume: true, Replayers: []string{"rec", "rec", "finite:3:manual", "finite:4:auto", "valid:manual", "valid:auto", "none"}, MaxSubs: 4, MaxPubs: 3, MaxMsgs: 5, Latency: true, LateSubscribe: true}
 	jLoop(t, r, "S", r.N(4000, 60000), g, 4, 6, jTargeted, func(sc *jScenario, tr *jTrace) []jv {
 		return oracleSubscriberSafety(sc, tr)
 	})
@@ -419,7 +443,7 @@ func TestC07(t *testing.T) {
 func TestC17(t *testing.T) {
 	r := fw.Start(t, "C17")
 	defer r.Finish()
-	g := jGen{ClientFaults: true, ReplayerFaults: true, PanicFaults: true, Resume: true, Replayers: []string{"rec", "rec", "finite:4:manual", "finite:3:auto", "valid:manual", "valid:auto"}, MaxSubs: 5, MaxPubs: 3, MaxMsgs: 5, Latency: true, LateSubscribe: true}
+	g := jGen{ClientFaults: true, ReplayerFaults: true, PanicFaults: true, Resume: true, BadIDs: true, Replayers: []string{"rec", "rec", "finite:4:manual", "finite:3:auto", "valid:manual", "valid:auto"}, MaxSubs: 5, MaxPubs: 3, MaxMsgs: 5, Latency: true, LateSubscribe: true}
 	jLoop(t, r, "S", r.N(4000, 60000), g, 3, 4, []map[string]int64{{"loop.errsent": 60}, {"loop.sent": 35, "loop.put": 20}, {"loop.replayed": 100}}, func(sc *jScenario, tr *jTrace) []jv {
 		out := oracleDelivery(sc, tr, false)
 		out = append(out, oraclePublishReturns(tr)...)
